@@ -526,6 +526,11 @@ func (fc *fileCtx) syncIntercept(call *ast.CallExpr) string {
 		case "Wait", "Signal", "Broadcast":
 			return "sync.Cond." + f.Name()
 		}
+	case "sync.WaitGroup":
+		switch f.Name() {
+		case "Add", "Done", "Wait":
+			return "sync.WaitGroup." + f.Name()
+		}
 	}
 	return ""
 }
@@ -587,6 +592,23 @@ func (fc *fileCtx) passYCall(call *ast.CallExpr, depth int, fn string) {
 		fc.replace(sel.X.End(), call.Lparen+1, "), ")
 		fc.insert(call.Rparen, ", "+q(site), 90-depth)
 		record("once", site, fn)
+	case strings.HasPrefix(kind, "sync.WaitGroup."):
+		// wg.Add(n) -> simrt.WgAdd(&wg, n); wg.Done() -> simrt.WgDone(&wg); wg.Wait() -> simrt.WgWait(&wg, site)
+		amp := "&"
+		if isPointer(fc.pkg.TypesInfo.TypeOf(sel.X)) {
+			amp = ""
+		}
+		name := strings.TrimPrefix(kind, "sync.WaitGroup.")
+		fc.insert(sel.X.Pos(), simName+".Wg"+name+"("+amp+"(", 10+depth)
+		switch name {
+		case "Add":
+			fc.replace(sel.X.End(), call.Lparen+1, "), ")
+		case "Done":
+			fc.replace(sel.X.End(), call.Rparen+1, "))")
+		default:
+			fc.replace(sel.X.End(), call.Rparen+1, "), "+q(site)+")")
+		}
+		record("waitgroup", site, fn)
 	case strings.HasPrefix(kind, "sync.Cond."):
 		// c.Wait() -> simrt.CondWait(c, site) etc.: the simulator keeps the waiters
 		amp := "&"
@@ -668,8 +690,16 @@ func (fc *fileCtx) process() {
 				case *ast.CallExpr:
 					fc.passYCall(n, depth, fn)
 				case *ast.GoStmt:
-					rep.GoStmts++
-					rep.Unmodelled = append(rep.Unmodelled, siteRec{Kind: "go_statement", Site: fc.site(n.Pos()), Func: fn})
+					if lit, ok := n.Call.Fun.(*ast.FuncLit); ok && len(n.Call.Args) == 0 && lit.Type.Params.NumFields() == 0 {
+						// go func() { ... }()  ->  simrt.Go(func() { ... }, site): one more scheduled task
+						site := fc.site(n.Pos())
+						fc.replace(n.Pos(), lit.Pos(), simName+".Go(")
+						fc.replace(n.Call.Lparen, n.Call.Rparen+1, ", "+q(site)+")")
+						record("go_func", site, fn)
+					} else {
+						rep.GoStmts++
+						rep.Unmodelled = append(rep.Unmodelled, siteRec{Kind: "go_statement", Site: fc.site(n.Pos()), Func: fn})
+					}
 				case *ast.SendStmt, *ast.SelectStmt:
 					rep.Unmodelled = append(rep.Unmodelled, siteRec{Kind: "channel_op", Site: fc.site(n.Pos()), Func: fn})
 				case *ast.UnaryExpr:
